@@ -128,7 +128,7 @@ class UEmit:
             if ty[0] == "u":
                 if a[0] == "u" and a[1] < ty[1]:
                     return (t, ty)          # zero extension
-                if a[0] in ("u", "k", "s"):
+                if a[0] in ("u", "k", "s", "pd"):
                     return ("(u_cast %d %s)" % (ty[1], t), ty)
                 self.err("cast of a pointer to an integer")
             self.err("cast to %s" % e[1])
@@ -151,6 +151,11 @@ class UEmit:
             self.err("call of %s/%d" % (f, len(args)))
         if k == "bin" and e[1] in ARI:
             (ta, a), (tb, b) = self.val(e[2]), self.val(e[3])
+            if a[0] == "ptr" and b[0] == "ptr" and e[1] == "-":
+                if a[1] != 1 or b[1] != 1:
+                    self.err("difference of pointers whose element size is not 1")
+                # ptrdiff_t: only its 64-bit pattern is modelled, usable where it is converted to a 64-bit unsigned
+                return ("(u_sub 64 %s %s)" % (ta, tb), ("pd", 64))
             if a[0] == "ptr" or b[0] == "ptr":
                 if b[0] == "ptr" and a[0] != "ptr" and e[1] == "+":
                     ta, a, tb, b = tb, b, ta, a
@@ -181,6 +186,11 @@ class UEmit:
             self.err("integer operation on a pointer")
         if a[0] == "k" and b[0] == "k":
             return ta, tb, ("k", None)
+        if a[0] == "pd" or b[0] == "pd":
+            o = b if a[0] == "pd" else a
+            if o != ("u", 64) and o[0] != "pd":
+                self.err("a pointer difference (ptrdiff_t) used with %r: signed arithmetic is not modelled" % (o,))
+            return ta, tb, ("u", 64)
         # integer promotion: unsigned narrower than int, int constants and int variables are `int`
         def rank(t):
             if t[0] == "u" and t[1] >= 32:
